@@ -182,7 +182,14 @@ func rlRun(in []byte) (interface{}, error) {
 				switch rnd.Intn(4) {
 				case 0:
 					if rnd.Intn(2) == 0 {
-						k.key = []byte(fmt.Sprint(int64(op.V)*1000003 - 40000*int64(rnd.Intn(3)))) // numeric key name (possibly negative)
+						// numeric key name at / around the limits of the integer string forms, both signs (op.V keeps the names distinct)
+						edges := []int64{0, -1, 127, 128, -128, -129, -200, 32767, 32768, -32768, -32769, -30000, 2147483647, -2147483648, 2147483648, -2147483649}
+						k.key = []byte(fmt.Sprint(edges[rnd.Intn(len(edges))] - 16*int64(op.V)*int64(rnd.Intn(2))))
+						for _, o := range keys {
+							if bytes.Equal(o.key, k.key) {
+								k.key = []byte(fmt.Sprint(-1000 - op.V))
+							}
+						}
 					}
 					w.KeyStr(k.key, rdbref.StrAuto, rdbref.LenCanonical, k.typ, k.body)
 				case 1:
